@@ -36,11 +36,9 @@ impl SyntaxParserTrait for AssignmentParser {
             
             while let Some(token) = parser.consume_token() {
                 match token.deref() {
-                    TokenType::Operator(operator) => {
-                        if *operator == '=' {
-                            parser.consume_token();
-                            break;
-                        }
+                    TokenType::Operator('=') => {
+                        parser.consume_token();
+                        break;
                     }
                     _ => {
                         variable_name.push(' ');
